@@ -5,6 +5,7 @@
    instance is just an index), [outs init ops] the answers given along the way. *)
 From Coq Require Import List.
 From Basyx Require Import model.LocalFile proofs.LocalFileProofs.
+From Basyx Require model.Crash proofs.CrashProofs.
 Import ListNotations.
 
 (* Every history of new/add/get/contains/len/iter/discard/local edit/commit/update/clear source/
@@ -137,3 +138,30 @@ Example C14_threads_example :
   let r := run_sched (TAdd 0) TGet 0 1 [false; false; true; true; true; false; true] s0 pc0 pc0 in
   targets 1 s0 (TAdd 0) /\ tobj (TAdd 0) (snd (fst r)) = Some 0 /\ tobj TGet (snd r) = Some 0.
 Proof. vm_compute. split; [exists (mkobj 1 3 SNone); split; reflexivity|split; reflexivity]. Qed.
+
+(* A reader (any instance, also one opened at that moment) that looks at the directory while a
+   writer is paused inside any effect of a disciplined write - add and commit are such writes,
+   C15_add_safe / C15_commit_safe - with any part of the buffered data flushed to the temporary
+   file: every other file is as before, the document is the old one (or still absent) or the
+   complete new one, and the read views agree with each other (model/Crash.v [answers_ok]: iteration
+   yields exactly the contained ids, each with the content lookup returns, len is their number,
+   membership and lookup answer alike) - the temporary file is never counted, listed or looked up. *)
+Theorem C14_observer_during_write : forall k p pl n fl d0,
+  Crash.disc k Crash.P0 p = true -> Crash.wf d0 ->
+  let d := Crash.disk (Crash.fin (Crash.run p (Crash.cleanup_of k) pl (CrashProofs.paused_at n fl) Crash.FNone
+                                            (Crash.fresh_st d0))) in
+  (forall f, f <> Crash.FDoc k -> f <> Crash.FTmp k -> Crash.lookup f d = Crash.lookup f d0) /\
+  (Crash.lookup (Crash.FDoc k) d = Crash.lookup (Crash.FDoc k) d0 \/
+   exists v, pl = Crash.Good v /\ Crash.lookup (Crash.FDoc k) d = Some (Crash.Full v)) /\
+  Crash.answers_ok d.
+Proof. exact CrashProofs.observer_view. Qed.
+
+(* Non-vacuity: key 1 is stored, the writer adds key 0 and is paused inside os.replace (5 effects
+   done, the temporary file complete): readers see one document, len 1, key 0 absent. *)
+Example C14_observer_example :
+  let d0 := [(Crash.FDoc 1, Crash.Full 7)] in
+  let d := Crash.disk (Crash.fin (Crash.run (Crash.add_proc 0) (Crash.cleanup_of 0) (Crash.Good 5)
+                                            (CrashProofs.paused_at 5 None) Crash.FNone (Crash.fresh_st d0))) in
+  d = [(Crash.FDoc 1, Crash.Full 7); (Crash.FTmp 0, Crash.Full 5)] /\
+  Crash.r_len d = 1 /\ Crash.r_iter d = Some [(1, 7)] /\ Crash.r_contains d 0 = false.
+Proof. vm_compute. repeat split; reflexivity. Qed.
